@@ -372,16 +372,20 @@ def shards(tier, seed):
     order = F.CODON_MODELS + F.PROTEIN_MODELS + [m for m in F.MODELS if m not in F.CODON_MODELS + F.PROTEIN_MODELS]
     for name in order:
         n = len(base_problems(name, tier))
-        for i in range(n):
-            out.append({"model": name, "base": i, "tier": tier})
+        # codon models cost 1-4 s to construct per process: fewer, larger shards for them
+        group = 3 if F.MODELS[name][0] == "codon" else 1
+        for i in range(0, n, group):
+            out.append({"model": name, "bases": list(range(i, min(n, i + group))), "tier": tier})
     return out
 
 
 def run_shard(spec, acc):
-    base = base_problems(spec["model"], spec["tier"])[spec["base"]]
-    check_base(base, acc, spec["tier"])
-    acc.sample({"model": base["model"], "tree": F.shape_text(D.to_tree(base["tree"])), "class": base["class"], "columns": base["cols"],
-                "n_transforms": len(transforms(base, spec["tier"]))}, base["model"][:2] + base["class"])
+    problems = base_problems(spec["model"], spec["tier"])
+    for i in spec["bases"]:
+        base = problems[i]
+        check_base(base, acc, spec["tier"])
+        acc.sample({"model": base["model"], "tree": F.shape_text(D.to_tree(base["tree"])), "class": base["class"],
+                    "columns": base["cols"], "n_transforms": len(transforms(base, spec["tier"]))}, base["model"][:2] + base["class"])
 
 
 def replay(case):
